@@ -155,15 +155,18 @@ def pcOf (c : Cfg) (i : Nat) : PC := (c.threads[i]?.map (·.pc)).getD (.start fa
 def unlinks (keys : List Key) (a b : Heap) : Nat :=
   ((sortPairs keys).filter fun k => a.linked k && !b.linked k).length
 
-/-- Run thread `i` from `start`/`missed` to the gate after the lookup (or to completion for the
-    single-region operations). -/
-def toGate (fixed : Bool) (c : Cfg) (i : Nat) : Cfg :=
-  let c := match pcOf c i with
-    | .start _ => cstep fixed c i
-    | _ => c
+/-- Let thread `i` run to its next gate (`lookup:after-miss`, `update:after-lookup`) or to
+    completion: one lock region, plus the new lookup when that region was a retry. -/
+def advance (fixed : Bool) (c : Cfg) (i : Nat) : Cfg :=
+  let c := cstep fixed c i
   match pcOf c i with
-  | .missed => cstep fixed c i
+  | .start _ => cstep fixed c i
   | _ => c
+
+def parkTok (c : Cfg) (i : Nat) (retry : Bool) : String :=
+  match pcOf c i with
+  | .missed => if retry then "parked retry miss" else "parked miss"
+  | _ => if retry then "parked retry" else "parked"
 
 /-- All linear extensions of the interval order, as final index strings compared with `target`. -/
 def linSearch (keys : List Key) (target : String) : Nat → List HistOp → Index → Bool
@@ -180,7 +183,8 @@ def schedOut (d : DState) (before : Heap) (head : String) : String :=
 def finishHist (d : DState) (i : Nat) : DState :=
   { d with hist := d.hist.map fun h => if h.id == i then { h with fin := d.line, done := true } else h }
 
-/-- `step T`: the write region (or the retry of the repaired code followed by a new lookup). -/
+/-- `step T`: the next lock region (slow-path lookup, or the write region, or the retry of the
+    repaired code followed by a new lookup). -/
 def stepThread (d : DState) (i : Nat) : DState × String :=
   let before := d.cfg.heap
   match d.cfg.threads[i]? with
@@ -190,17 +194,17 @@ def stepThread (d : DState) (i : Nat) : DState × String :=
     | .done _ => (d, schedOut d before "idle")
     | _ =>
       let orphan := t.orphanWrite d.cfg.heap
-      let c := cstep d.fixed d.cfg i
+      let wasLooked := match t.pc with
+        | .looked .. => true
+        | _ => false
+      let c := advance d.fixed d.cfg i
       match pcOf c i with
       | .done p =>
         let d := finishHist { d with cfg := c, lost := d.lost + (if orphan then 1 else 0) } i
         (d, schedOut d before ("done " ++ (if orphan then "orphan" else p.tok)))
       | _ =>
-        let c := toGate d.fixed c i
         let d := { d with cfg := c }
-        match pcOf c i with
-        | .done p => let d := finishHist d i; (d, schedOut d before ("done " ++ p.tok))
-        | _ => (d, schedOut d before "parked retry")
+        (d, schedOut d before (parkTok c i wasLooked))
 
 def forceFinish (d : DState) : Nat → List Nat → DState
   | _, [] => d
@@ -221,19 +225,19 @@ def stepSched (d : DState) (toks : List String) : DState × String :=
       if (d.names.lookup name).isSome then (d, "bad-op") else
       let i := d.cfg.threads.length
       let c := { d.cfg with threads := d.cfg.threads ++ [{ op := op }] }
-      let c := toGate d.fixed c i
+      let c := advance d.fixed c i
       let d := { d with cfg := c, keys := addKeys op d.keys, names := (name, i) :: d.names,
                         hist := d.hist ++ [{ id := i, op := op, start := d.line }] }
       match pcOf c i with
       | .done p => let d := finishHist d i; (d, schedOut d before ("done " ++ p.tok))
-      | _ => (d, schedOut d before "parked")
+      | _ => (d, schedOut d before (parkTok c i false))
   | ["step", name] =>
     match d.names.lookup name with
     | none => (d, schedOut d before "idle")
     | some i => stepThread d i
   | ["end"] =>
     let n := d.cfg.threads.length
-    let d := forceFinish d (4 * n + 4) (List.range n)
+    let d := forceFinish d (6 * n + 6) (List.range n)
     let target := showIndex d.keys d.cfg.heap.index
     let lin := linSearch d.keys target d.hist.length d.hist Index.empty
     (d, "lin=" ++ boolTok lin ++ " lost=" ++ toString d.lost ++ " u=" ++ toString (unlinks d.keys before d.cfg.heap) ++
@@ -245,10 +249,9 @@ def stepSched (d : DState) (toks : List String) : DState × String :=
       -- an operation executed start to end by the scheduling goroutine itself
       let i := d.cfg.threads.length
       let c := { d.cfg with threads := d.cfg.threads ++ [{ op := op }] }
-      let c := toGate d.fixed c i
-      let c := match pcOf c i with
+      let c := (List.range 4).foldl (fun c _ => match pcOf c i with
         | .done _ => c
-        | _ => cstep d.fixed c i
+        | _ => advance d.fixed c i) c
       let d := { d with cfg := c, keys := addKeys op d.keys,
                         hist := d.hist ++ [{ id := i, op := op, start := d.line, fin := d.line, done := true }] }
       let head := match pcOf c i with
